@@ -10,6 +10,7 @@ use elf::file::Class;
 use elf::parse::{ParseAt, ParseError, ParsingIterator, ParsingTable};
 
 mod alloc_count;
+mod ops;
 mod show;
 use show::*;
 
@@ -101,6 +102,31 @@ macro_rules! with_spec {
             }
             "native" => {
                 let $e = NativeEndian;
+                $body
+            }
+            _ => bad(),
+        }
+    };
+}
+
+#[macro_export]
+macro_rules! with_fam {
+    ($w:expr, $E:ident, $body:expr) => {
+        match $w {
+            "le" => {
+                type $E = LittleEndian;
+                $body
+            }
+            "be" => {
+                type $E = BigEndian;
+                $body
+            }
+            "any" => {
+                type $E = AnyEndian;
+                $body
+            }
+            "native" => {
+                type $E = NativeEndian;
                 $body
             }
             _ => bad(),
@@ -258,6 +284,27 @@ pub fn run_case(o: W, g: &[Vec<Tok>]) -> std::fmt::Result {
         }
         ("strtab", 2) => run_strtab(o, h[1].b(), &g[1..]),
         ("utf8", 2) => write!(o, "{}", core::str::from_utf8(h[1].b()).is_ok() as u8),
+        ("sysvhash", 2) => write!(o, "{}", elf::hash::sysv_hash(h[1].b())),
+        ("gnuhash", 2) => write!(o, "{}", elf::hash::gnu_hash(h[1].b())),
+        ("ident", 3) => with_fam!(h[1].w(), E, ops::run_ident::<E>(o, h[2].b())),
+        ("bytes", 3) => with_fam!(h[1].w(), E, ops::run_bytes::<E>(o, h[2].b(), &g[1..])),
+        ("notes", 5) => {
+            let c = class_of(h[2].n()).ok_or(std::fmt::Error)?;
+            with_spec!(h[1].w(), e, ops::run_notes(o, e, c, h[3].us(), h[4].b(), &g[1..]))
+        }
+        ("sysv", 6) | ("gnu", 6) => {
+            let c = class_of(h[2].n()).ok_or(std::fmt::Error)?;
+            let gnu = h[0].w() == "gnu";
+            with_spec!(h[1].w(), e, ops::run_hash(o, gnu, e, c, h[3].b(), h[4].b(), h[5].b(), &g[1..]))
+        }
+        ("viter", 7) => {
+            let c = class_of(h[3].n()).ok_or(std::fmt::Error)?;
+            with_spec!(h[2].w(), e, ops::run_viter(o, h[1].w(), e, c, h[4].n(), h[5].us(), h[6].b(), &g[1..]))
+        }
+        ("symvert", 14) => {
+            let c = class_of(h[2].n()).ok_or(std::fmt::Error)?;
+            with_spec!(h[1].w(), e, ops::run_symvert(o, e, c, h, &g[1..]))
+        }
         _ => bad(),
     }
 }
